@@ -241,7 +241,7 @@ func init() {
 			}
 			return c
 		},
-		Oracles: []oracleFn{oC07},
+		Oracles: []oracleFn{oC07, oDeadlock("C07")}, // no lifecycle or cancel calls in this profile: a deadlock means a failure disabled the pool
 		Pre: func(t *rapid.T, th bool, st *Stats) bool {
 			// one case in five exercises the Func / ErrFunc / ResultFunc helper workers instead
 			if rapid.IntRange(0, 4).Draw(t, "helperpart") != 0 {
@@ -267,7 +267,7 @@ func init() {
 			}
 			return true
 		},
-		Foreign: []oracleFn{oDeadlock("C03"), oLivelock("C03")},
+		Foreign: []oracleFn{oLivelock("C03")},
 		NonTrivial: func(ix *Index) (bool, []string) {
 			cl := classesOf(ix)
 			kinds := map[int]bool{}
@@ -282,7 +282,7 @@ func init() {
 	// ------------------------------------------------------------------ C08
 	register(&Spec{Prop: "C08",
 		Gen: func(t *rapid.T, th bool) *Case {
-			pf := &Profile{Kinds: []string{"res", "err", "res", "plain"}, QKinds: memQKinds, MaxQueues: 1, Concs: []int{1, 2, 3, 4, 8}, MinClients: 1, MaxClients: 3, MaxOps: scale(th, 6, 10),
+			pf := &Profile{Kinds: []string{"res", "err", "res", "plain"}, QKinds: memQKinds, MaxQueues: 1, Concs: []int{1, 2, 3, 4, 8}, IDGenProb: 30, MinClients: 1, MaxClients: 3, MaxOps: scale(th, 6, 10),
 				Ops:     map[string]int{"addall": 30, "gconsume": 25, "gwait": 10, "gpending": 15, "purge": 4, "qclose": 3, "add": 4, "release": 4, "yield": 3},
 				Ctrl:    map[string]int{"pause": 2, "resume": 3},
 				MaxCtrl: 2, GatedProb: 20, Outs: []int{OutVal, OutVal, OutErr, OutPanicStr}, MaxBatch: scale(th, 5, 12)}
